@@ -423,14 +423,23 @@ def part_cache(ctx, tmp):
         added = {}
         ops, lits = [], []
         cur = None
+        pending, last_mol, last_mode = [], 0, 'linear'
         for k in range(rng.randint(4, 14)):
             o = rng.choice(['get', 'get', 'get', 'interp', 'memory', 'clear', 'path', 'add']) if cur is not None else 'path'
-            if o == 'get':
-                mi = rng.randrange(3)
+            if pending:
+                o = pending.pop(0)
+            elif cur is not None and o == 'get' and rng.random() < 0.5:
+                # the pattern that matters for "takes effect for every opacity served afterwards":
+                # serve a molecule, change the mode, serve the same molecule again
+                pending = ['interp-flip', 'get-same']
+            if o in ('get', 'get-same'):
+                mi = last_mol if o == 'get-same' else rng.randrange(3)
+                last_mol = mi
                 ops.append(('get', mi))
                 lits.append('Get %d' % mi)
-            elif o == 'interp':
-                m = rng.choice(['linear', 'exp'])
+            elif o in ('interp', 'interp-flip'):
+                m = rng.choice(['linear', 'exp']) if o == 'interp' else ('exp' if last_mode == 'linear' else 'linear')
+                last_mode = m
                 ops.append(('interp', m))
                 lits.append('SetInterp %s' % ('Linear' if m == 'linear' else 'Exp'))
             elif o == 'memory':
